@@ -41,6 +41,31 @@ def idl_obj(spec):
     return list(spec)
 
 
+def sibling_idl(rng, idl):
+    """another irregular list with the same first and last configuration and the same length, holes elsewhere
+    (exposes caches keyed by summary statistics of a layout)"""
+    lst = list(idl_obj(idl))
+    if len(lst) < 6:
+        return idl
+    lo, hi = lst[0], lst[-1]
+    d = [b - a for a, b in zip(lst, lst[1:])]
+    step = min(d)
+    grid = list(range(lo, hi + 1, step))
+    if len(grid) <= len(lst):
+        # contiguous: open one hole by stretching the end
+        grid = list(range(lo, hi + 2 * step + 1, step))
+        hi = grid[-1]
+    inner = [g for g in grid[1:-1]]
+    if len(inner) < len(lst) - 2:
+        return idl
+    pick = sorted(rng.sample(inner, len(lst) - 2))
+    out = [lo] + pick + [hi]
+    dd = set(b - a for a, b in zip(out, out[1:]))
+    if len(dd) == 1:
+        return ["range", out[0], out[-1] + 1, dd.pop()]
+    return out
+
+
 def gen_chain(rng, ens, rname, nmin=5, nmax=64, allow_irregular=True):
     n = rng.randint(nmin, max(nmax, nmin + 4))
     return {"name": rname, "n": n, "idl": gen_idl(rng, n, allow_irregular),
@@ -75,6 +100,14 @@ def gen_obs_spec(rng, nens=None, nmin=5, nmax=64, allow_irregular=True, allow_co
             names = ["%s|%s%d" % (e, style, k) for k in nums]
         parts.append({"coef": rng.choice([1.0, 1.0, 0.5, -2.0, 3.25]), "chains": [gen_chain(rng, e, nm, nmin, nmax, allow_irregular) for nm in names]})
     spec = {"parts": parts}
+    if allow_irregular and rng.random() < 0.3:
+        # sibling layouts: chains sharing first / last configuration and length with another chain of the object
+        for part in parts:
+            for k in range(1, len(part["chains"])):
+                if rng.random() < 0.6:
+                    a = part["chains"][0]
+                    part["chains"][k]["idl"] = sibling_idl(rng, a["idl"])
+                    part["chains"][k]["n"] = a["n"]
     if allow_cov and rng.random() < 0.25:
         name = rng.choice(["covA", "sys_b"])
         spec["cov"] = dict(COVS[name], name=name, pos=rng.randrange(COVS[name]["dim"]), coef=rng.choice([1.0, 0.3]))
